@@ -70,6 +70,29 @@ def make_quitter(d, rng):
     return Quitter(d, rng.randint(1, 3))
 
 
+def make_raiser(d, rng):
+    """An observer subscribed AFTER the reward observers whose n-th update raises once; the
+    caller catches the error and carries on."""
+    from job_shop_lib.dispatching import DispatcherObserver
+
+    class Raiser(DispatcherObserver):
+        _is_singleton = False
+
+        def __init__(self, dispatcher, at):
+            super().__init__(dispatcher)
+            self.at = at
+            self.n = 0
+
+        def update(self, scheduled_operation):
+            self.n += 1
+            if self.n == self.at:
+                raise RuntimeError("observer failure injected by the harness")
+
+        def reset(self):
+            pass
+    return Raiser(d, rng.randint(1, 4))
+
+
 def check_prefix(ctx, r: Ref, mk, idle, k, where, extra=None):
     ctx.count("prefix_checks")
     w = {"where": where, "k": k, "history": list(r.history)}
@@ -131,6 +154,15 @@ def run_case(ctx, case):
                 ctx.violation("c13_factory_returned_unsubscribed_reward_observer",
                               {"subscribers": [repr(x) for x in run.d.subscribers]})
             mk, idle = mk2, idle2
+        elif kind == "standalone" and case["seed"] % 3 == 1:
+            # built unsubscribed, then subscribed by hand
+            mk = MakespanReward(run.d, subscribe=False); idle = IdleTimeReward(run.d, subscribe=False)
+            for ob in ((mk, idle) if order else (idle, mk)):
+                run.d.subscribe(ob)
+            ctx.count("reward_observers_subscribed_by_hand")
+            if run.d.subscribers.count(mk) != 1 or run.d.subscribers.count(idle) != 1:
+                ctx.violation("c13_reward_observer_subscribed_wrong_number_of_times",
+                              {"makespan": run.d.subscribers.count(mk), "idle": run.d.subscribers.count(idle)})
         elif order:
             quitter = make_quitter(run.d, rng) if case["seed"] % 4 == 0 else None
             mk = MakespanReward(run.d); idle = IdleTimeReward(run.d)
@@ -145,6 +177,10 @@ def run_case(ctx, case):
                 o, m = run.choose(rng, "random_ready"); run.dispatch(o, m)
             run.d.reset(); run.r.reset()
             ctx.count("after_reset_histories")
+        raiser = None
+        if kind in ("standalone", "standalone_reset") and case["seed"] % 7 == 2:
+            raiser = make_raiser(run.d, rng)
+            ctx.count("histories_with_a_failing_later_observer")
         check_prefix(ctx, run.r, mk, idle, 0, kind)
         flat = gaps = False
         k = 0
@@ -152,10 +188,23 @@ def run_case(ctx, case):
             pol = case["policy"]
             before = run.r.makespan()
             o, m = run.choose(rng, pol if pol != "mixed" else rng.choice(gen.POLICIES))
-            run.dispatch(o, m)
+            try:
+                run.dispatch(o, m)
+            except RuntimeError:
+                if raiser is None:
+                    raise
+                # a later observer failed: the caller goes on; the operation counts iff the
+                # schedule holds it
+                ctx.count("dispatches_with_a_failing_later_observer")
+                if any(so.operation is run.op(o) for lst in run.d.schedule.schedule for so in lst):
+                    run.r.apply(o, m)
+                else:
+                    check_prefix(ctx, run.r, mk, idle, k, kind,
+                                 {"note": "dispatch undone after an observer failure"})
+                    continue
             k += 1
             check_prefix(ctx, run.r, mk, idle, k, kind)
-            if k == 2 and case["seed"] % 5 == 0 and not run.done():
+            if k == 2 and case["seed"] % 5 == 0 and not run.done() and raiser is None:
                 # a deep copy of the dispatcher (e.g. for look-ahead) is independent: dispatching
                 # on it must leave the original's reward streams untouched
                 import copy
